@@ -93,7 +93,7 @@ fn run(cfg: &RunCfg) -> Report {
             let per = total / ns;
             let lo = per * sh;
             let hi = if sh == ns - 1 { total } else { lo + per };
-            let cont_every: u32 = if cfg.thorough() || cfg.is_small() { 1 } else { 16 };
+            let cont_every: u32 = if cfg.thorough() || cfg.is_small() { 1 } else { 4 };
             let mut bare = 0u64;
             let mut buf = Vec::with_capacity(700);
             for v in lo..hi {
